@@ -201,3 +201,61 @@ static void op_chunkseq(FILE *out, const char *id, char **a, int n) {
     fputc('\n', out);
     zck_free(&zck); close(fd);
 }
+
+static void set_flags(zckCtx *zck, const char *fl) {
+    size_t i = 0;
+    for(zckChunk *c = zck->index.first; c && fl[i]; c = c->next, i++)
+        c->valid = fl[i] == '1' ? 1 : fl[i] == '0' ? 0 : -1;
+}
+
+/* COPY <tgtfile> <flags|-> <src1,src2,...>: open the target (read/write), mark its chunks (1/0/x per chunk; '-' =
+ * run zck_find_valid_chunks instead), then zck_copy_chunks from each source in order.
+ *  -> OK r=<rets> flags=<..> tgt=<target file bytes> src=<1|0 per source: file unchanged> */
+static void op_copy(FILE *out, const char *id, char **a, int n) {
+    int tfd = open(a[0], O_RDWR);
+    if(tfd < 0) { fprintf(out, "%s HARNESS-ERR nofile\n", id); return; }
+    zckCtx *tgt = zck_create();
+    if(!zck_init_read(tgt, tfd)) { fprintf(out, "%s ERR open-tgt\n", id); return; }
+    if(strcmp(a[1], "-") == 0) zck_find_valid_chunks(tgt); else set_flags(tgt, a[1]);
+    char rets[256] = "", same[256] = ""; int k = 0;
+    char *save = NULL;
+    for(char *s = strtok_r(a[2], ",", &save); s && k < 100; s = strtok_r(NULL, ",", &save), k++) {
+        size_t bl; unsigned char *before = slurp(s, &bl);
+        int sfd = open(s, O_RDONLY);
+        zckCtx *src = zck_create();
+        if(sfd < 0 || !zck_init_read(src, sfd)) { rets[k] = 'e'; same[k] = '1'; zck_free(&src); if(sfd >= 0) close(sfd); free(before); continue; }
+        rets[k] = zck_copy_chunks(src, tgt) ? '1' : '0';
+        zck_free(&src); close(sfd);
+        size_t al; unsigned char *after = slurp(s, &al);
+        same[k] = (al == bl && memcmp(before, after, bl) == 0) ? '1' : '0';
+        free(before); free(after);
+    }
+    fprintf(out, "%s OK r=%s flags=", id, k ? rets : "-");
+    put_flags(out, tgt);
+    zck_free(&tgt); close(tfd);
+    size_t tl; unsigned char *tb = slurp(a[0], &tl);
+    fprintf(out, " tgt=");
+    put_bytes(out, tb, tl);
+    fprintf(out, " src=%s\n", k ? same : "-");
+    free(tb);
+}
+
+/* MATCH <src> <tgt> <flags>: zck_find_matching_chunks -> OK m=<valid:srcnumber|self,...> */
+static void op_match(FILE *out, const char *id, char **a, int n) {
+    int sfd, tfd;
+    zckCtx *src = open_file(a[0], &sfd), *tgt = open_file(a[1], &tfd);
+    if(!src || !tgt) { fprintf(out, "%s ERR open\n", id); return; }
+    set_flags(tgt, a[2]);
+    int r = zck_find_matching_chunks(src, tgt);
+    fprintf(out, "%s OK r=%d m=", id, r);
+    int first = 1;
+    for(zckChunk *c = tgt->index.first; c; c = c->next) {
+        zckChunk *s = zck_get_src_chunk(c);
+        if(s && s != c && s->zck == src) fprintf(out, "%s%d:%zu", first ? "" : ",", c->valid, s->number);
+        else fprintf(out, "%s%d:self", first ? "" : ",", c->valid);
+        first = 0;
+    }
+    if(first) fputc('-', out);
+    fputc('\n', out);
+    zck_free(&src); zck_free(&tgt); close(sfd); close(tfd);
+}
